@@ -294,3 +294,9 @@ B('C15.extension-rejects-more', ['C15', 'C06'], [(P + 'tls/extension.py', "     
 B('C13.swap-restore-on-cls', ['C13', 'C14'], [(P + 'common/base.py', "                _, human_readable_name = _SerializablePlainText._markdown_result(name)",
    "                saved, cls.post_text_encoder = cls.post_text_encoder, SerializableTextEncoder()\n                try:\n                    _, human_readable_name = cls._markdown_result(name)\n                finally:\n                    cls.post_text_encoder = saved")])
 B('C08.timestamp-local-tuple', ['C08', 'C06', 'C07', 'C11'], [(P + 'common/parse.py', "value.utctimetuple()", "value.timetuple()")])
+B('C01.eq-ignores-field', ['C01'], [(P + 'tls/extension.py', "    record_size_limit = attr.ib(validator=attr.validators.instance_of(int))",
+   "    record_size_limit = attr.ib(eq=False, validator=attr.validators.instance_of(int))")], mention=['equality'])
+B('C01.identity-equality', ['C01'], [(P + 'tls/openvpn.py', "@attr.s\nclass OpenVpnPacketWrapperTcp(ParsableBase):\n    payload = attr.ib()\n",
+   "class OpenVpnPacketWrapperTcp(ParsableBase):\n    def __init__(self, payload):\n        self.payload = payload\n")], mention=['equality'])
+N('benign.explicit-eq-over-dict', [(P + 'tls/openvpn.py', "@attr.s\nclass OpenVpnPacketWrapperTcp(ParsableBase):\n    payload = attr.ib()\n",
+   "class OpenVpnPacketWrapperTcp(ParsableBase):\n    def __init__(self, payload):\n        self.payload = payload\n\n    def __eq__(self, other):\n        return type(self) is type(other) and self.__dict__ == other.__dict__\n\n    def __hash__(self):\n        return hash(bytes(self.payload))\n")])
